@@ -31,18 +31,24 @@ EXPECT_SITES = {
     "pSBL.motion.children": {"addChild", "addConnect", "removeFromParent", "free"},
     "pSBL.motion.valid": {"isPathValid", "free"},
     "pSBL.motion.parent": {"isPathValid", "removeMotion", "free"},
-    "PRM.graph": {"addMilestone", "constructSolution", "startGoalPairValid"},
+    "PRM.graph": {"addMilestone", "constructSolution", "startGoalPairValid", "expandPdf", "expandBounce"},
     "PRM.disjointSets": {"addMilestone", "sameComponent"},
     "PRM.addedNewSolution": {"reset", "checkStore", "query"},
-    "PRM.bestCost": {"constructRoadmap", "maybeConstructSolution", "report"},
+    "PRM.bestCost": {"maybeConstructSolution", "report"},
     "CForest.bestCost": {"solveInit", "newSolutionFoundCheck", "newSolutionFoundUpdate"},
     "CForest.samplers": {"addSampler", "share"},
-    "CForestStateSampler.statesToSample": {"emptyCheck", "set", "pop"},
+    "CForestStateSampler.statesToSample": {"set", "pop"},
     "APS.bestCost": {"solveInit", "satisfiedCheck", "addPathCheck", "addPathUpdate"},
 }
+# ... where the site depends on the variant of the code: one of the alternatives
+EXPECT_ONE_OF = [
+    {("pSBL.connectionPoint", "checkSolution"), ("pSBL.connectionPoint", "publish")},
+    {("PRM.bestCost", "constructRoadmap"), ("PRM.bestCost", "solve")},
+    {("CForestStateSampler.statesToSample", "emptyCheck"), ("CForestStateSampler.statesAvailable", "emptyCheck")},
+]
 # resources that must have been touched by at least two threads in some run
 SHARED = ["pRRT.sol.solution", "pRRT.sol.approxdif", "pRRT.nn", "GoalStates.samplePosition", "pSBL.sol.found",
-          "pSBL.removeList", "pSBL.tree", "pSBL.motion.children", "pSBL.loopCounter", "PRM.graph", "PRM.disjointSets",
+          "pSBL.removeList", "pSBL.tree", "pSBL.motion.children", "PRM.graph", "PRM.disjointSets",
           "PRM.addedNewSolution", "PRM.bestCost", "CForest.bestCost", "CForest.samplers",
           "CForestStateSampler.statesToSample", "APS.bestCost", "SolutionSet.solutions"]
 PSBL_PROTOCOL_SEEN = {"enter", "leave", "removal", "tryFail"}
@@ -71,11 +77,16 @@ def jobs(tier):
                 map=MAPS[0] if q != "single" else None)
         # pSBL: plain runs, a valid-state sampler whose sampleNear() fails now and then, a second solve() after it
         # (long motions - range "huge" - are often invalid: the lazy validation queues them and the removal phase runs)
-        add("pSBL", "removal", range="huge", budget=300, threads=3, map=MAPS[1])
-        add("pSBL", "removal", range="huge", budget=300, threads=3, map=MAPS[3])
-        add("pSBL", "plain", range="small", budget=600, map=(3, 3, [], 0, 1), threads=3)
-        add("pSBL", "plain", range="default", budget=400, map=(2, 1, [], 0, 1))
-        add("pSBL", "plain", range="small", budget=500, map=(3, 3, [], 0, 1), threads=2)
+        # and a wall between start and goal keeps the planner from finishing early); in the open maps the first worker
+        # that has found a solution is held back before it publishes it, so that a second one finds one as well
+        # (every 20th tree insertion is held back inside its iteration: the others then find loopLock_ taken - try_lock fails)
+        add("pSBL", "removal", range="huge", budget=300, threads=3, map=(3, 3, [1, 4, 7], 0, 2), stall=["pSBL.addMotion%20"])
+        add("pSBL", "removal", range="huge", budget=250, threads=3, map=(4, 3, [1, 5, 9], 0, 3), stall=["pSBL.addMotion%20"])
+        add("pSBL", "removal", range="huge", budget=250, threads=3, map=(3, 3, [1, 4, 7], 0, 2), stall=["pSBL.addMotion%20"])
+        add("pSBL", "plain", range="small", budget=600, map=(3, 3, [], 0, 1), threads=3, stall=["pSBL.connectionPoint#1"])
+        add("pSBL", "plain", range="default", budget=400, map=(2, 1, [], 0, 1), stall=["pSBL.connectionPoint#1"])
+        add("pSBL", "plain", range="small", budget=500, map=(3, 3, [], 0, 1), threads=2, stall=["pSBL.connectionPoint#1"])
+        add("pSBL", "plain", range="small", budget=500, map=(2, 2, [], 0, 1), threads=3, stall=["pSBL.connectionPoint#1"])
         add("pSBL", "flaky", range="small", budget=200, flakyEvery=rng.choice([5, 7, 11]))
         add("pSBL", "flaky", range="tiny", budget=160, flakyEvery=rng.choice([5, 7, 11]), threads=2)
         add("pSBL", "flaky-resolve", range="small", budget=120, flakyEvery=5, solves=2, threads=2)
@@ -86,6 +97,9 @@ def jobs(tier):
         for _k in range(2):
             add("PRM", "visible-pair", map=MAPS[4], budget=rng.choice([300, 600]), stall=["PRM.startGoalPairValid"])
         add("PRM", "plain", budget=rng.choice([600, 1500]), stall=["PRM.startGoalPairValid"])
+        # the expansion step starts after 0.4 s of growing (the planner's own clock): every milestone insertion is held
+        # back (60 ms), a wall keeps the query unsolved, the solution thread's polling (1 kHz) needs the budget
+        add("PRM", "expand", budget=4000, map=(3, 3, [1, 4, 7], 0, 2), stall=["PRM.addMilestone"], perturb=1)
         add("PRM", "goalstates", query="goalstates", map=MAPS[0], budget=800, stall=["PRM.startGoalPairValid"])
         add("PRMstar", "visible-reset", map=MAPS[4], budget=300, stall=["PRM.bestCostReset"])
         add("PRMstar", "visible-pair", map=MAPS[4], budget=300, stall=["PRM.startGoalPairValid"])
@@ -97,9 +111,11 @@ def jobs(tier):
                 query=rng.choice(["single", "goalstates"]) if f == 0 else "single", map=MAPS[0])
         # AnytimePathShortening: its own thread polls the termination condition in a tight loop -> large budget, capped
         # log; it is held back before it initialises bestCost_ (its workers are running by then)
-        for _k in range(3):
-            add("AnytimePathShortening", "plain", budget=rng.choice([5000, 8000]), cap=1200, threads=2,
+        for _k in range(2):
+            add("AnytimePathShortening", "late-init", budget=rng.choice([5000, 8000]), cap=1200, threads=2,
                 stall=["APS.bestCostInit"])
+        for _k in range(2):
+            add("AnytimePathShortening", "plain", budget=rng.choice([6000, 9000]), cap=1200, threads=2)
     return out
 
 
@@ -320,6 +336,9 @@ def planner_traces(ck, tier, binary):
             sites[r["res"]][r.get("site", "")] += 1
             threads_of.setdefault((r["res"], scen, r["obj"]), set()).add(r["t"])
     missing = {res: sorted(want - set(sites.get(res, {}))) for res, want in EXPECT_SITES.items() if want - set(sites.get(res, {}))}
+    for alt in EXPECT_ONE_OF:
+        if not any(site in sites.get(res, {}) for res, site in alt):
+            missing["one of"] = sorted(alt)
     if missing:
         raise FrameworkError("vacuity gate: hooked sites never reached (hooks missing, not built in, or scenarios too weak): %s" % missing)
     multi = {res for (res, _s, _o), ts in threads_of.items() if len(ts) >= 2}
